@@ -88,7 +88,10 @@ ImplicitSummaryOK(r) ==
          [] r.summary = "list"    -> r.out = (IF n = 0 THEN <<>> ELSE One("listed", 0))
          [] r.summary = "fwm"     -> r.out = (IF n = 0 THEN One("listed", 0) ELSE <<>>)
 
-Allowed(r) == IF r.summary # "none" THEN (IF r.mode = "binary" \/ r.naming = "explicit" THEN SummaryOK(r) ELSE ImplicitSummaryOK(r))
+\* "repl": a replacement (-r) is printed, so lines are not the input's own; what remains of the policy is that no NUL byte of the
+\* file reaches the output
+Allowed(r) == IF r.summary = "repl" THEN ~r.nulout
+              ELSE IF r.summary # "none" THEN (IF r.mode = "binary" \/ r.naming = "explicit" THEN SummaryOK(r) ELSE ImplicitSummaryOK(r))
               ELSE IF r.mode = "text" THEN TextOK(r)
               ELSE IF r.mode = "binary" \/ r.naming = "explicit" THEN ConvertOK(r)
               ELSE ImplicitOK(r)
